@@ -353,13 +353,15 @@ func (vc *VC) applyContractEnv(st *State, v *ssa.Call, spec *FuncSpec, names []s
 	} else {
 		vc.usedSpecs[spec.Name] = true
 	}
+	var pcRes *Term
 	if spec.PureConst {
 		rt := sig.Results().At(0).Type()
 		res := vc.pureConstApp(spec, args, rt)
 		n := vc.fresh("r", res.Sort)
 		vc.assume(sx("=", n, res.S))
 		vc.assume(vc.ss().typeInv(rt, n, 0))
-		vc.setResults(v, []Term{{S: n, Sort: res.Sort, T: rt}})
+		pcRes = &Term{S: n, Sort: res.Sort, T: rt}
+		vc.setResults(v, []Term{*pcRes})
 		if len(spec.clauses("ensures")) == 0 && len(spec.clauses("requires")) == 0 {
 			return
 		}
@@ -442,6 +444,10 @@ func (vc *VC) applyContractEnv(st *State, v *ssa.Call, spec *FuncSpec, names []s
 	}
 	// frame (the modifies clause may mention the result, e.g. pooled[ifval(result)])
 	res := vc.freshResults(sig, "r")
+	if pcRes != nil {
+		// the postconditions speak about the very value the function symbol denotes
+		res = []Term{*pcRes}
+	}
 	if !spec.Pure {
 		menv := &Env{vc: vc, st: pre, old: pre, vars: map[string]Term{}, pkg: pkg, parent: env}
 		vc.bindResults(menv, sig, spec, res)
